@@ -595,6 +595,44 @@ func init() {
 							}
 						}
 					}
+					// a LEFTOVER cookie of the same name in front of the live one (a host-only and a domain cookie of the same name; a stale copy
+					// from before the last sign-out): whichever of the two the proxy goes by, a sign-out that answers with the success redirect
+					// leaves nothing behind that the same Cookie header still authenticates with
+					if redis && path == "" && dom == nil {
+						stale := newBrowser()
+						live := newBrowser()
+						if l1, l2 := e.login(stale, u, "/app/home"), e.login(live, u, "/app/home"); l1.OK && l2.OK {
+							staleCk := stale.cookieHeader()
+							e.do(reqSpec{Target: e.opts.ProxyPrefix + "/sign_out", Cookie: staleCk}) // (its stored session is gone; the browser kept a copy of the cookie)
+							for _, order := range []string{"stale-first", "live-first"} {
+								hdr := staleCk + "; " + live.cookieHeader()
+								if order == "live-first" {
+									hdr = live.cookieHeader() + "; " + staleCk
+								}
+								before := len(e.do(reqSpec{Target: "/app/before", Cookie: hdr}).Hits) > 0
+								so := e.do(reqSpec{Target: e.opts.ProxyPrefix + "/sign_out", Cookie: hdr})
+								after := len(e.do(reqSpec{Target: "/app/after", Cookie: hdr}).Hits) > 0
+								c.casen("c11|leftover-same-name|"+order, fmt.Sprint(before, so.Status, after))
+								c.count("signout:leftover-same-name-cookie")
+								if so.Status == 302 && after {
+									in := map[string]interface{}{"cookie_header": "two cookies of the session cookie's name: a copy whose stored session is gone, and the live one (" + order + ")",
+										"authenticated_before_sign_out": before, "sign_out_status": so.Status, "authenticated_after_sign_out": after}
+									c.violation("C11", "sign-out answered with the success redirect, and the SAME Cookie header is still authenticated afterwards: the request was authenticated through one of two same-named cookies, the sign-out removed the other one's session", in)
+									c.violation("C13", "sign-out reported success while the stored session the request was authenticated with is still loadable (two same-named ticket cookies: the load fell back to the second, the delete went by the first)", in)
+								}
+								if order == "stale-first" {
+									// (the live session is needed once more)
+									if after || !before {
+										live = newBrowser()
+										if !e.login(live, u, "/app/home").OK {
+											break
+										}
+									}
+								}
+							}
+						}
+						e.mr.FlushAll()
+					}
 					// sessions of the sign-in FORM (htpasswd users; they carry no creation time until saved): sign in, sign in again
 					// while the first cookie is still presented, optionally a third time from a clean tab, use, sign out —
 					// no cookie the browser ever held authenticates afterwards
@@ -1027,7 +1065,7 @@ func init() {
 			}
 		}
 		c.close([]string{"serve:signout", "signout:replay", "signout:del-fault", "signout:parts-1", "signout:refresh-at-signout", "signout:during-refresh", "signout:outage", "signout:foreign-host", "signout:unvalidatable-ticket",
-			"signout:redis-stall", "signout:form-logins", "signout:cookie-header-lines", "signout:behind-proxy", "signout:del-fault-backend-logout", "signout:vs-slow-refresh", "signout:vs-read-in-flight"})
+			"signout:redis-stall", "signout:form-logins", "signout:cookie-header-lines", "signout:behind-proxy", "signout:del-fault-backend-logout", "signout:vs-slow-refresh", "signout:vs-read-in-flight", "signout:leftover-same-name-cookie"})
 	})
 
 	registerSuite("cookieattrs", func(c *suiteCtx) {
